@@ -35,6 +35,7 @@ class Wire(probes.Probe):
         self.server = None
         self.wlock = threading.Lock()
         self.writes = []          # (thread id, bytes)
+        self.after_feed = None    # callback(bytes) run in the writing thread after the server took the bytes (a write may block)
 
     def send(self, data):
         b = bytes(data)
@@ -42,6 +43,8 @@ class Wire(probes.Probe):
             self.writes.append((threading.get_ident(), b))
             if self.server is not None:
                 self.server.feed(b)
+        if self.after_feed is not None:
+            self.after_feed(b)
 
 
 class Transport(object):
